@@ -14,6 +14,7 @@ OUT = os.path.join(ROOT, ".build", "shim")
 SHIMS = {
     "sasa": dict(src="cshim/sasa_shim.cpp", defs={"SASA_CPP": "mdtraj/geometry/src/sasa.cpp"}, inc=["mdtraj/geometry/include"]),
     "dssp": dict(src="cshim/dssp_shim.cpp", defs={"DSSP_CPP": "mdtraj/geometry/src/dssp.cpp"}, inc=["mdtraj/geometry/include"]),
+    "nbl": dict(src="cshim/nbl_shim.cpp", defs={"NBL_CPP": "mdtraj/geometry/src/neighborlist.cpp"}, inc=["mdtraj/geometry/include"]),
     "geom": dict(src="cshim/geom_shim.cpp", defs={"GEOM_CPP": "mdtraj/geometry/src/geometry.cpp"}, inc=["mdtraj/geometry/include", "mdtraj/geometry/src/kernels"]),
     "rmsd": dict(src="cshim/rmsd_shim.cpp", defs={"RMSD_CPP": "mdtraj/rmsd/src/theobald_rmsd.cpp"}, inc=["mdtraj/rmsd/include", "mdtraj/rmsd/src"]),
 }
